@@ -125,6 +125,27 @@ def check_property_file(pid):
         raise CoqError('could not match Print Assumptions output for %s (%d blocks, %d commands)' % (pid, len(blocks), len(printed)))
     return theorems, printed, assumptions
 
+def coqchk(pid, timeout=1800):
+    """Re-check Properties/<pid>.vo and everything it depends on with the independent checker; returns
+    (ok, axioms, summary text)."""
+    r = subprocess.run(['timeout', str(timeout), 'coqchk', '-silent', '-o', '-Q', 'theories', 'YP', 'YP.Properties.' + pid],
+                       cwd=COQ, capture_output=True, text=True)
+    out = r.stdout + r.stderr
+    i = out.find('CONTEXT SUMMARY')
+    summary = out[i:] if i >= 0 else out[-2000:]
+    axioms = []
+    m = re.search(r'\* Axioms:(.*?)(?=\n\* |\Z)', summary, re.S)
+    if m:
+        body = m.group(1).strip()
+        if body != '<none>':
+            axioms = [l.strip() for l in body.split('\n') if l.strip()]
+    unsafe = []
+    for key in ('type-in-type', 'unsafe (co)fixpoints', 'positivity is assumed'):
+        m2 = re.search(re.escape(key) + r':(.*?)(?=\n\* |\Z)', summary, re.S)
+        if m2 and m2.group(1).strip() != '<none>':
+            unsafe.append(key + ': ' + m2.group(1).strip()[:200])
+    return (r.returncode == 0 and not unsafe), axioms, summary.strip()
+
 HEADER = '''From Coq Require Import String List ZArith NArith Bool.
 Import ListNotations.
 From YP Require Import Base.Str Term.Term.
